@@ -8,6 +8,10 @@ right after edges_from_bonding_descrpt are evaluated in Coq (Compose/CutRunCheck
 `cut_bonding_skeleton` hold of the implementation's own templates / base graph (121, 122), its conclusion holds of the
 implementation's own fine graph (123), and the resolver model run on those templates and that base graph returns
 exactly that fine graph (correspondence, "124").  Compose/CutRunSound.v proves what verdict 0 means.
+String level (Compose/TextCutDefs.v, TextRunCheck.v): the string-level driver model of the text theorems
+(C01_text_level_skeleton, C01_text_returned_iso) - find_blocks, Reader's read_cgsmiles, fragment_split, strip, pysmiles
+parser model, final template, dictionary insertion, disconnected + bonding step - is run on every generated string and
+compared with the implementation's base graph, template dictionary and bonded fine graph (correspondence).
 Search part (never a proof): the end-to-end result is compared with the generator's molecule
 (element, charge, bond orders, hydrogen counts) and with resolving the uncut molecule."""
 import contextlib
@@ -55,11 +59,11 @@ class C01(C03):
     technique = ('Coq proof of the bonding step (unique labels force exactly the cut bonds; on the regenerated '
                  '`compatible`), its hypothesis tested and its conclusion compared on the implementation per run; '
                  'end-to-end molecule equality decided by a generated search (molecule x partition x rendering)')
-    vo_deps = ['theories/Resolve/CutCheck.vo', 'theories/Compose/CutRunCheck.vo']
+    vo_deps = ['theories/Resolve/CutCheck.vo', 'theories/Compose/CutRunCheck.vo', 'theories/Compose/TextRunCheck.vo']
     prop_file = 'theories/Properties/C01.v'
     case_requires = ('From Coq Require Import String.\nFrom Coq Require Import List Ascii ZArith Bool.\n'
                      'From CGV Require Import Base.PyBase Base.PyVal Base.NxGraph Resolve.Bonding Resolve.BondingCheck Resolve.CutCheck '
-                     'Compose.CutModel Compose.CutRunCheck.\nOpen Scope Z_scope.\n' + _ABBR_DEFS)
+                     'Compose.CutModel Compose.CutRunCheck Compose.TextRunCheck.\nOpen Scope Z_scope.\n' + _ABBR_DEFS)
     shard = 30
     case_type = 'cut_case'
     corr_fn = 'cut_corr'
@@ -262,10 +266,13 @@ class C01(C03):
             run = _compress('(Some {| rc_cut := %s; rc_fd := %s; rc_base := %s; rc_aa := %s; rc_impl := %s |})'
                             % (self._cut_literal(case['glevel'], gl['hcount']), gl['fd'], gl['base'], lit.b(gl['aa']),
                                'None' if gl['m2'] is None else '(Some %s)' % gl['m2']))
-        return '({| cc_case := %s; cc_cuts := %s |}, %s, %s)' % (base, cl, judged, run)
+        # the string itself, for the string-level driver model (Compose/TextRunCheck.v): from_text / text_bonded on the
+        # string against the base graph, the dictionary and the bonded fine graph recorded above
+        text = 'None' if run == 'None' else '(Some %s)' % lit.s(case['s'])
+        return '(({| cc_case := %s; cc_cuts := %s |}, %s, %s), %s)' % (base, cl, judged, run, text)
 
 
 PROP = C01()
-PROP.case_type = 'c01_case'
-PROP.corr_fn = 'c01_corr'
-PROP.fail_fn = 'c01_fail'
+PROP.case_type = 'c01t_case'
+PROP.corr_fn = 'c01t_corr'
+PROP.fail_fn = 'c01t_fail'
